@@ -92,6 +92,7 @@ structure Secs where
   a : List String := []
   b : List String := []
   twice : Bool := false
+  dump : Bool := false   -- `C` instead of `B`: the option variables are also printed after the FIRST Parse
 
 /-- split the words after the header into the sections O F R A [B] -/
 def sections (ws : List String) : Secs :=
@@ -104,6 +105,7 @@ def sections (ws : List String) : Secs :=
       else if cur < 4 && w = "R" then go t 3 s
       else if cur < 4 && w = "A" then go t 4 s
       else if cur = 4 && w = "B" then go t 5 { s with twice := true }
+      else if cur = 4 && w = "C" then go t 5 { s with twice := true, dump := true }
       else match cur with
         | 1 => go t cur { s with o := w :: s.o }
         | 2 => go t cur { s with f := w :: s.f }
@@ -120,7 +122,8 @@ def doParse (incl : String) (ws : List String) : String :=
     if s.twice then
       let (out, rest1) := parseTwice orc (incl == "1") decls files args args2
       match out with
-      | .done _ => renderStore orc (incl == "1") decls out ++ " ||" ++ String.join (rest1.map (fun r => " " ++ hexOf r))
+      | .done _ => renderStore orc (incl == "1") decls out ++ " ||" ++ String.join (rest1.map (fun r => " " ++ hexOf r)) ++
+          (if s.dump then " ||| " ++ renderStore orc (incl == "1") decls (parse orc (incl == "1") decls files args) else "")
       | _ => renderStore orc (incl == "1") decls out
     else renderStore orc (incl == "1") decls (parse orc (incl == "1") decls files args)
   | _, _, _, _, _ => "bad-op"
@@ -129,17 +132,40 @@ def doParse (incl : String) (ws : List String) : String :=
     writer set with `SetWriter` (default: standard error) -/
 def doFx (entry writer : String) : String :=
   let wh := if writer = "out" then "out" else if writer = "fail" then "none" else "err"
+  -- the outcome of the call, then `Outcome.exitStatus`: status 1 through atexit.Exit, or the call returns
+  let fin (o : Outcome) : String :=
+    match o.exitStatus with
+    | some 1 => "fatal:" ++ wh
+    | some st => "exit:" ++ toString st
+    | none => "returned:none"
   match entry with
-  | "msg" | "err" => "fatal:" ++ wh
-  | "iferr" => (match fatalIfError false with | some _ => "returned:none" | none => "fatal:" ++ wh)
-  | "ifnil" => (match fatalIfError true with | some _ => "returned:none" | none => "fatal:" ++ wh)
+  | "msg" | "err" => fin .fatal
+  | "iferr" => fin (match fatalIfError false with | some _ => .done {} | none => .fatal)
+  | "ifnil" => fin (match fatalIfError true with | some _ => .done {} | none => .fatal)
   | "write" => "returned:" ++ wh
   | "cmdnone" | "cmdbad" => "returned:none"   -- RunCommand returns an error for a missing / unknown command name
   | _ => "bad-op"
 
-/-- `ax <status> <op> …`: a history of atexit.Register / Unregister calls, then `Exit(status)`.  `r:<act>` registers
-    a function (functions are numbered by the ordinal of their registration) that announces itself and then: `p`
-    nothing, `s`/`e`/`n`/`t`/`z` panics in some way, `x` calls Exit again, `g` registers function 900+own number,
+/-- the options every `ax P…` line declares: a string option n/name, a flag a, an int8 option i/int -/
+def axDecls : List Decl :=
+  [⟨110, some (ofString "name"), ⟨.str, false⟩, [ofString "d"]⟩, ⟨97, none, ⟨.bool, false⟩, [ofString "false"]⟩,
+   ⟨105, some (ofString "int"), ⟨.int 8, false⟩, [ofString "7"]⟩]
+
+/-- how the process of an `ax` line ends: a number = `atexit.Exit(number)` called directly; `M` / `E` / `I` = `FatalMsg`,
+    `FatalError`, `FatalIfError(err)`; `N` = `FatalIfError(nil)` (returns); `P<incl>:<arg>,<arg>…` = `Parse` of that vector on
+    a command line with the options `axDecls` -/
+def axEnd? (w : String) : Option Outcome :=
+  if w = "M" || w = "E" || w = "I" then some .fatal
+  else if w = "N" then (match fatalIfError true with | some _ => some (.done {}) | none => some .fatal)
+  else if w.startsWith "P" then
+    match ((w.drop 1).toString).splitOn ":" with
+    | [incl, l] => (hexList? l).map (fun args => parse [] (incl == "1") axDecls [] args)
+    | _ => none
+  else none
+
+/-- `ax <end> <op> …`: a history of atexit.Register / Unregister calls, then the end of the process (`axEnd?`).  `r:<act>`
+    registers a function (functions are numbered by the ordinal of their registration) that announces itself and then:
+    `p` nothing, `s`/`e`/`n`/`t`/`z` panics in some way, `x` calls Exit again, `g` registers function 900+own number,
     `u<k>` unregisters the k-th registration; `u<k>` unregisters the id returned by the k-th Register. -/
 def doAx (status : String) (ws : List String) : String :=
   let parsed : Option (List AtExit.Op × List AtExit.Act) := ws.foldlM (fun (p : List AtExit.Op × List AtExit.Act) w =>
@@ -156,13 +182,50 @@ def doAx (status : String) (ws : List String) : String :=
       act.map (fun act => (p.1 ++ [.reg n], p.2 ++ [act]))
     else if w.startsWith "u" then (w.drop 1).toString.toNat?.map (fun k => (p.1 ++ [.unreg k], p.2))
     else none) ([], [])
-  match status.toNat?, parsed with
-  | some st, some (ops, acts) =>
-    (match AtExit.runHistory (fun f => (acts[f]?).getD .plain) ops st with
-     | some (log, st) => "exit " ++ toString st ++ " run " ++
-         (if log.isEmpty then "~" else ",".intercalate (log.map toString))
-     | none => "no-exit")
-  | _, _ => "bad-op"
+  let fmtEnd (r : Option (List Nat × Nat)) : String :=
+    match r with
+    | some (log, st) => "exit " ++ toString st ++ " run " ++
+        (if log.isEmpty then "~" else ",".intercalate (log.map toString))
+    | none => "no-exit"
+  match parsed with
+  | some (ops, acts) =>
+    let actOf : Nat → AtExit.Act := fun f => (acts[f]?).getD .plain
+    (match status.toNat? with
+     | some st => fmtEnd (AtExit.runHistory actOf ops st)
+     | none =>
+       match axEnd? status with
+       | some o => (match o.exitStatus with
+                    | none => "returned"
+                    | some _ => fmtEnd (processEnd actOf ops o))
+       | none => "bad-op")
+  | none => "bad-op"
+
+/-- `gs <kind> <initial contents> <raw> …`: a `GeneralValue` of the kind used directly — `String()` at the start and after
+    every `Set`, up to the first `Set` that fails -/
+def doGs (kd df : String) (ws : List String) : String :=
+  match kind? kd, hexList? df, ws.mapM hexStr? with
+  | some k, some defs, some raws =>
+    (match defs.mapM (vText k.base) with
+     | some init =>
+       if !k.slice && init.length != 1 then "bad-op" else
+       " ".intercalate (hexOf (gvString k init) ::
+         (gvHistory k init raws).map (fun r => match r with | some t => hexOf t | none => "err"))
+     | none => "bad-op")
+  | _, _, _ => "bad-op"
+
+/-- `gf <kind> <initial contents> <raw> …`: like `gs`, but the history goes on after a refused `Set` (`err:<String()>`): what
+    a failing `Set` leaves in the variable is part of the comparison -/
+def doGf (kd df : String) (ws : List String) : String :=
+  match kind? kd, hexList? df, ws.mapM hexStr? with
+  | some k, some defs, some raws =>
+    (match defs.mapM (vText k.base) with
+     | some init =>
+       if !k.slice && init.length != 1 then "bad-op" else
+       let direct := kd = "bool" || kd = "int64" || kd = "uint64"
+       " ".intercalate (hexOf (gvString k init) ::
+         (gvHistoryFull direct k init raws).map (fun r => (if r.1 then "" else "err:") ++ hexOf r.2))
+     | none => "bad-op")
+  | _, _, _ => "bad-op"
 
 def step (_ : Unit) (line : String) : Unit × String :=
   let out :=
@@ -171,6 +234,8 @@ def step (_ : Unit) (line : String) : Unit × String :=
     | "pc" :: incl :: ws => doParse incl ws
     | ["fx", entry, writer] => doFx entry writer
     | "ax" :: status :: ws => doAx status ws
+    | "gs" :: kd :: df :: ws => doGs kd df ws
+    | "gf" :: kd :: df :: ws => doGf kd df ws
     | _ => "bad-op"
   ((), out)
 
